@@ -226,7 +226,6 @@ def replay(ctx, path):
     if "item" not in rp:
         return E.replay(ctx, path)
     # an exported constant: rebuild the one target and probe again
-    from . import codec_targets as T
 
     def plan(ns, base, tier):
         return [t for t in E.target_plan(ns, base, "thorough") if t.name == rp["target"]]
